@@ -241,3 +241,56 @@ func vxC04Words(maxSep int) {
 
 func VxC04_Words2() { vxC04Words(2) }
 func VxC04_Words3() { vxC04Words(3) }
+
+// ---- keyword table sweep: every entry of the tokenizer's own keyword table, whatever its length,
+// is recognised with the same kind in upper, lower and alternating case, alone and inside a
+// statement (byte-level bounds never reach the long keywords).
+
+var vxKeywordList = func() []string {
+	var out []string
+	for k := range keywordTokenTypes {
+		out = append(out, k)
+	}
+	// deterministic order
+	for a := 1; a < len(out); a++ {
+		for b := a; b > 0 && out[b] < out[b-1]; b-- {
+			out[b], out[b-1] = out[b-1], out[b]
+		}
+	}
+	return out
+}()
+
+func vxRecase(w string, mode int) string {
+	b := []byte(w)
+	for k := range b {
+		lower := mode == 1 || (mode == 2 && k%2 == 1) || (mode == 3 && k == len(b)-1)
+		if lower && b[k] >= 'A' && b[k] <= 'Z' {
+			b[k] += 'a' - 'A'
+		}
+	}
+	return string(b)
+}
+
+func VxC04_Keywords() {
+	w := vxKeywordList[vx.Choice(len(vxKeywordList))]
+	mode := vx.Choice(4) // upper, lower, alternating, last letter lower
+	if compoundKeywordStarts[w] {
+		return // multi-word keyword starts are judged by the word-slot harness
+	}
+	spelled := vxRecase(w, mode)
+	vx.Notef("keyword=%q spelled=%q", w, spelled)
+	for _, in := range []string{spelled, "x " + spelled + " y"} {
+		tk, _ := New()
+		toks, err := tk.Tokenize([]byte(in))
+		vx.Assertf("C04.keyword_accept", err == nil, "%q is rejected: %v", in, err)
+		if err != nil {
+			return
+		}
+		at := 0
+		if len(in) > len(spelled) {
+			at = 1
+		}
+		vx.Assertf("C04.keyword_kind", len(toks) > at && toks[at].Token.Type == keywordTokenTypes[w], "%q in %q: kind %d, the table says %d", spelled, in, int(toks[at].Token.Type), int(keywordTokenTypes[w]))
+		vx.Assertf("C04.keyword_value", len(toks) > at && toks[at].Token.Value == spelled, "%q in %q: value %q", spelled, in, toks[at].Token.Value)
+	}
+}
